@@ -21,6 +21,7 @@ type Term struct {
 }
 
 type Gen struct {
+	usedASTHeight bool
 	Prog    *ssa.Program
 	Pkgs    []*ssa.Package
 	PkgByPath map[string]*ssa.Package
